@@ -520,6 +520,23 @@ def empty_option_case(draw):
     return {"kind": "lines", "lines": lines, "expect_ok": ok, "what": "empty_string_among_the_options"}
 
 
+@st.composite
+def unitless_node_options_case(draw):
+    """options with a unit on a node that has none: a dimensionless unit (%) is converted into a plain number, a unit
+    with a dimension is not an option of such a node at all"""
+    form = draw(st.sampled_from(["lines", "list"]))
+    what = draw(st.sampled_from(["percent_match", "percent_match", "percent_number_only", "dimensional"]))
+    opts = draw(st.lists(st.sampled_from([25, 50, 75, 10]), min_size=2, max_size=3, unique=True))
+    if what == "percent_match":
+        val, u, ok = fmt(opts[0] / 100), "%", True          # 0.5 is the option 50 %
+    elif what == "percent_number_only":
+        val, u, ok = fmt(float(opts[0])), "%", False        # 50 is not 50 %
+    else:
+        val, u, ok = fmt(float(opts[0])), draw(st.sampled_from(["m", "s"])), False       # 5 is not 5 m
+    cons = ["  !options [" + ",".join(str(o) for o in opts) + f"] {u}"] if form == "list" else [f"  = {o} {u}" for o in opts]
+    return {"kind": "lines", "lines": [f"x float = {val}"] + cons, "expect_ok": ok, "what": "options_with_units_on_a_unitless_node"}
+
+
 def strategies(tier):
     return {"numeric": (numeric_case(), 2500, 60000), "string": (string_case(), 800, 20000), "bool": (bool_case(), 200, 4000),
             "array": (array_case(), 600, 12000), "declaration": (decl_case(), 150, 2000),
@@ -530,7 +547,8 @@ def strategies(tier):
             "format_multiline": (format_multiline_case(), 150, 3000), "mixed_joiners": (mixed_joiners_case(), 300, 6000),
             "zero": (zero_case(), 300, 6000), "after_modification": (after_modification_case(), 300, 6000),
             "same_condition_text": (same_condition_text_case(), 150, 3000),
-            "empty_option": (empty_option_case(), 100, 1500)}
+            "empty_option": (empty_option_case(), 100, 1500),
+            "unitless_node_options": (unitless_node_options_case(), 120, 2000)}
 
 
 # --------------------------------------------------------------------------- rendering
